@@ -1,6 +1,6 @@
 CONSTANTS
   NDocs = 24
-  NOperators = 45
+  NOperators = 46
   MaxSite = 5
 INIT Init
 NEXT Next
